@@ -55,41 +55,65 @@ theorem coversAll_exactly {ds : DSymData} (hs : ValidSym ds) (hsz : 1 ≤ ds.siz
   obtain ⟨cs, hcs, h1, h2, h3⟩ := h (CanonP.fuelOK_of_ge_searchFuel _ _ k _ (Nat.le_refl _))
   exact ⟨cs, by rw [coversAll_eq hf0]; exact hcs, h1, h2, h3⟩
 
+/-- the view of a yielded table (`[]` if there is none) -/
+def viewOf (x : Outcome Cosets.Table) : List (List Int) :=
+  match x with
+  | .ok t => (match t.view with
+    | .ok v => v
+    | _ => [])
+  | _ => []
+
 /-- one entry per conjugacy class, each with fundamental group the stabiliser of row 0 of its
-    table — no fuel -/
+    table — no fuel: `vs` lists the (views of the) coset tables the entries were built from -/
 theorem coversAll_classes_groups {ds : DSymData} (hs : ValidSym ds) (hsz : 1 ≤ ds.size)
     (hdim : 1 ≤ ds.dim) (hconn : ds.view.isConnected = true) (k : Nat) :
-    ∃ (f : FundGroup) (hf : fundamentalGroup ds = .ok f) (cs : List DSymData),
+    ∃ (f : FundGroup) (hf : fundamentalGroup ds = .ok f) (cs : List DSymData)
+      (vs : List (List (List Int))),
       coversAll ds k = .ok cs ∧
-      (∀ c ∈ cs, ∃ (v : List (List Int))
-          (hv : Valid (CosetInvP.viewTab v) f.nrGenerators f.relators []),
+      List.Forall₂ (fun v c => ∃ (hv : Valid (CosetInvP.viewTab v) f.nrGenerators f.relators []),
           IsCoverOf ds c (CosetInvP.viewTab v).size ∧
           TableOps ds c f.edgeToWord (CosetInvP.viewTab v) f.nrGenerators ∧
           (stab0 hv).index = (CosetInvP.viewTab v).size ∧ (CosetInvP.viewTab v).size ≤ max k 1 ∧
           ∃ φ : TGroup c →* TGroup ds, Function.Injective φ ∧
             φ.range = (MulAction.stabilizer (Equiv.Perm (Fin (CosetInvP.viewTab v).size))
-                (⟨0, hv.pos⟩ : Fin (CosetInvP.viewTab v).size)).comap (rhoT hs hdim hf hv)) ∧
+                (⟨0, hv.pos⟩ : Fin (CosetInvP.viewTab v).size)).comap (rhoT hs hdim hf hv)) vs cs ∧
+      vs.Pairwise (fun v1 v2 =>
+        ∀ (hv1 : Valid (CosetInvP.viewTab v1) f.nrGenerators f.relators [])
+          (hv2 : Valid (CosetInvP.viewTab v2) f.nrGenerators f.relators []),
+          ¬ CanonP.SubConj (stab0 hv1) (stab0 hv2)) ∧
       (∀ H : Subgroup (PresentedGroup (relSet f.nrGenerators f.relators)), H.index ≠ 0 → H.index ≤ k →
-        ∃ c ∈ cs, ∃ (v : List (List Int))
-          (hv : Valid (CosetInvP.viewTab v) f.nrGenerators f.relators []),
-          TableOps ds c f.edgeToWord (CosetInvP.viewTab v) f.nrGenerators ∧
+        ∃ v ∈ vs, ∃ (hv : Valid (CosetInvP.viewTab v) f.nrGenerators f.relators []),
           CanonP.SubConj H (stab0 hv)) := by
   obtain ⟨f0, hf0⟩ := fundamentalGroup_ok hs
   obtain ⟨f, hf, h⟩ := covers_classes hs hsz hdim k (searchFuel f0.nrGenerators k)
   rw [hf0] at hf
   cases hf
-  obtain ⟨cs, hcs, hall, _, hcomp⟩ := h (CanonP.fuelOK_of_ge_searchFuel _ _ k _ (Nat.le_refl _))
-  refine ⟨f0, hf0, cs, by rw [coversAll_eq hf0]; exact hcs, ?_, ?_⟩
-  · intro c hc
-    obtain ⟨x, _, t, v, hv, _, _, _, hcov, hops, hidx, hle⟩ := forall₂_mem_right hall c hc
+  obtain ⟨cs, hcs, hall, hpw, hcomp⟩ := h (CanonP.fuelOK_of_ge_searchFuel _ _ k _ (Nat.le_refl _))
+  refine ⟨f0, hf0, cs,
+    (cosetTables f0.nrGenerators f0.relators k (searchFuel f0.nrGenerators k)).map viewOf,
+    by rw [coversAll_eq hf0]; exact hcs, ?_, ?_, ?_⟩
+  · rw [List.forall₂_map_left_iff]
+    refine hall.imp ?_
+    rintro x c ⟨t, v, hv, hx, hview, _, hcov, hops, hidx, hle⟩
+    have hvo : viewOf x = v := by rw [hx]; unfold viewOf; simp only [hview]
+    rw [hvo]
     obtain ⟨φ, _, _, hinj, hrange⟩ := cover_group_iso_stabiliser hs hsz hdim hconn hf0 hv hcov hops
-    exact ⟨v, hv, hcov, hops, hidx, hle, φ, hinj, hrange⟩
+    exact ⟨hv, hcov, hops, hidx, hle, φ, hinj, hrange⟩
+  · rw [List.pairwise_map]
+    refine List.Pairwise.imp_of_mem ?_ hpw
+    intro x y hx hy hxy hv1 hv2
+    obtain ⟨_, _, t1, v1, _, hx1, hview1, _⟩ := forall₂_mem_left hall x hx
+    obtain ⟨_, _, t2, v2, _, hx2, hview2, _⟩ := forall₂_mem_left hall y hy
+    have e1 : viewOf x = v1 := by rw [hx1]; unfold viewOf; simp only [hview1]
+    have e2 : viewOf y = v2 := by rw [hx2]; unfold viewOf; simp only [hview2]
+    revert hv1 hv2
+    rw [e1, e2]
+    intro hv1 hv2
+    exact hxy t1 t2 v1 v2 hv1 hv2 hx1 hx2 hview1 hview2
   · intro H h0 hk
     obtain ⟨t, v, hv, hmem, hview, hconj⟩ := hcomp H h0 hk
-    obtain ⟨c, hc, t', v', hv', hx, hview', _, _, hops, _⟩ := forall₂_mem_left hall _ hmem
-    cases hx
-    rw [hview] at hview'
-    cases hview'
-    exact ⟨c, hc, v, hv, hops, hconj⟩
+    refine ⟨v, List.mem_map.2 ⟨_, hmem, ?_⟩, hv, hconj⟩
+    unfold viewOf
+    simp only [hview]
 
 end DSymVerif.CoversP
